@@ -156,7 +156,7 @@ func (e *Engine) planObject(x *Exec, ref *Term, t types.Type, st *types.Struct, 
 			p.fields = append(p.fields, fieldPlan{f.Name(), &valuePlan{kind: "skip"}})
 			continue
 		}
-		p.fields = append(p.fields, fieldPlan{f.Name(), e.planValue(x, Select(m, ref), f.Type(), depth+1, 32)})
+		p.fields = append(p.fields, fieldPlan{f.Name(), e.planValue(x, Select(m, ref), f.Type(), depth+1, 64)})
 	}
 	return p
 }
@@ -629,8 +629,10 @@ func (e *Engine) tryReplay(vc *VC, o *Obligation, fres *FuncResult, repo string,
 		}
 		rf.Objects = mr.objs
 		if fail != "" {
-			if need > 0 && need <= 4096 && attempt == 0 {
-				nElems = need
+			if need > 0 && need <= 4096 && attempt < 2 {
+				if need > nElems {
+					nElems = need
+				}
 				continue
 			}
 			rf.Note = "model not replayable: " + fail
